@@ -12,7 +12,7 @@ PROPS = {
     "C01": {
         "harness": [{"name": "c01"}],
         "n_quick": 240, "n_thorough": 6000,
-        "known_for": ["C01", "C15"],
+        "known_for": ["C01", "C15", "C14", "C03", "C05"],
         "scope_guards": ["C01_transparency composition theorem not yet proved for any fragment of the language; proved for every input: plan_sub (no field invented); refuted: 5 witnesses"],
         "assumptions": ["downstream services are spec-conformant executors over their own schema (simulators, checked against Gql/RefExec.v per request)",
                         "gqlparser's validation of client queries is taken as given (only validated operations are emitted)"],
@@ -20,50 +20,50 @@ PROPS = {
     "C04": {
         "harness": [{"name": "c01"}],
         "n_quick": 240, "n_thorough": 6000,
-        "known_for": ["C01", "C15"],
+        "known_for": ["C01", "C15", "C14", "C03", "C05"],
         "assumptions": ["validity of a received document is judged by gqlparser's validator at the simulator (direct oracle) and by valid_doc in the model"],
     },
     "C02": {
         "harness": [{"name": "c02"}],
-        "n_quick": 240, "n_thorough": 6000, "known_for": ["C01", "C15"],
+        "n_quick": 240, "n_thorough": 6000, "known_for": ["C01", "C15", "C14", "C03", "C05"],
         "assumptions": ["downstream services are spec-conformant executors over their own schema (simulators, checked against Gql/RefExec.v per request)",
                         "gqlparser's validation of client queries is taken as given (only validated operations are emitted)"],
         "partial": "panic recovery at the HTTP layer is gqlgen's; real timeouts are simulated by a transport returning a net.Error with Timeout()=true",
     },
     "C03": {
         "harness": [{"name": "c03"}],
-        "n_quick": 240, "n_thorough": 6000, "known_for": ["C01", "C15"],
+        "n_quick": 240, "n_thorough": 6000, "known_for": ["C01", "C15", "C14", "C03", "C05"],
         "assumptions": ["downstream services are spec-conformant executors over their own schema (simulators, checked against Gql/RefExec.v per request)",
                         "gqlparser's validation of client queries is taken as given (only validated operations are emitted)"],
     },
     "C05": {
         "harness": [{"name": "c05"}],
-        "n_quick": 240, "n_thorough": 6000, "known_for": ["C01", "C15"],
+        "n_quick": 240, "n_thorough": 6000, "known_for": ["C01", "C15", "C14", "C03", "C05"],
         "assumptions": ["downstream services are spec-conformant executors over their own schema (simulators, checked against Gql/RefExec.v per request)",
                         "gqlparser's validation of client queries is taken as given (only validated operations are emitted)"],
     },
     "C15": {
         "harness": [{"name": "c15"}],
-        "n_quick": 240, "n_thorough": 6000, "known_for": ["C01", "C15"],
+        "n_quick": 240, "n_thorough": 6000, "known_for": ["C01", "C15", "C14", "C03", "C05"],
         "assumptions": ["downstream services are spec-conformant executors over their own schema (simulators, checked against Gql/RefExec.v per request)",
                         "gqlparser's validation of client queries is taken as given (only validated operations are emitted)"],
     },
     "C16": {
         "harness": [{"name": "c16"}],
-        "n_quick": 240, "n_thorough": 6000, "known_for": ["C01", "C15"],
+        "n_quick": 240, "n_thorough": 6000, "known_for": ["C01", "C15", "C14", "C03", "C05"],
         "assumptions": ["downstream services are spec-conformant executors over their own schema (simulators, checked against Gql/RefExec.v per request)",
                         "gqlparser's validation of client queries is taken as given (only validated operations are emitted)"] + ["the simulators count a mutation's side effects when (and only when) the request is executed"],
     },
     "C06": {
         "harness": [{"name": "c06"}],
-        "n_quick": 70, "n_thorough": 1500, "known_for": ["C01", "C15"],
+        "n_quick": 70, "n_thorough": 1500, "known_for": ["C01", "C15", "C14", "C03", "C05"],
         "assumptions": ["downstream services are spec-conformant executors over their own schema (simulators, checked against Gql/RefExec.v per request)",
                         "gqlparser's validation of client queries is taken as given (only validated operations are emitted)"] + ["the Go scheduler between 'response read' and 'result sent' is not controlled by the harness; the transition system covers those interleavings"],
         "partial": "only response-completion order is forced (gating transport with a settle window); the merge-commutation lemma (any causally ordered list merges to the same tree) is not yet a theorem",
     },
     "C13": {
         "harness": [{"name": "c13"}],
-        "n_quick": 150, "n_thorough": 3000, "known_for": ["C01", "C15"],
+        "n_quick": 150, "n_thorough": 3000, "known_for": ["C01", "C15", "C14", "C03", "C05"],
         "assumptions": ["downstream services are spec-conformant executors over their own schema (simulators, checked against Gql/RefExec.v per request)",
                         "gqlparser's validation of client queries is taken as given (only validated operations are emitted)"] + ["goroutines are identified by a github.com/movio/bramble frame on their stack; net/http connection and body lifetimes are not observed"],
         "partial": "termination of the transition system is not yet proved (released/limit are); client cancellation is exercised by the harness only",
@@ -86,6 +86,12 @@ PROPS = {
         "assumptions": ["reloads are triggered synchronously through the build-tagged VerifReload wrapper; fsnotify delivery is not modelled",
                         "a fresh start is GetConfig on the same file with a new JWT plugin instance in the same process"],
         "partial": "only the service list, the JWT role table and key ids, and the poll interval are modelled among the reloadable settings",
+    },
+    "C14": {
+        "harness": [{"name": "c14"}],
+        "n_quick": 240, "n_thorough": 6000, "known_for": ["C01", "C15", "C14", "C03", "C05"],
+        "assumptions": ["downstream services are spec-conformant executors over their own schema (simulators, checked against Gql/RefExec.v per request)",
+                        "gqlparser's validation of client queries is taken as given (only validated operations are emitted)"] + ["strconv.IsPrint is an oracle: bytes >= 0x80 are assumed to belong to printable runes (the harness only uses such runes)"],
     },
 }
 
@@ -156,6 +162,11 @@ META = {
         "text": "Theorems C20_reload_equals_restart_partial (for any state left by any history, an accepted reload puts in effect exactly what a fresh start computes from the same file and environment, under the guard of the recorded stale-scalar finding), C20_failed_edit_keeps_config, C20_refuted_stale_scalar (full statement false on the current code: witness), and refutations of the d802d19 behaviour repaired by fix commits 90f22df and f91d55c. Tie: random edit histories (services added/removed/reordered/duplicated/omitted, roles and keys added/removed/omitted, invalid JSON, wrong types, invalid durations, BRAMBLE_SERVICE_LIST) with a synchronous reload after each edit; Config.Services, ExecutableSchema.Services, the JWT role table and key ids are compared with the model and with a fresh start on the same file.",
         "note": "Found by this check and recorded: an invalid poll-interval from a rejected edit poisons later valid edits (KF-stale-config-scalar).",
         "technique": "Coq state-machine model with proofs and refutation witnesses + differential correspondence on scripted edit histories",
+    },
+    "C14": {
+        "text": "Theorem C14_string_roundtrip_partial: for EVERY byte string free of the bytes whose Go escape is not a GraphQL escape, the GraphQL string lexer reads back from strconv.Quote's output exactly the string (proved by induction over the string with a 256-way case analysis per byte); C14_refuted_go_escapes shows each excluded byte alone breaks it; C14_literal_arrives_partial / C14_refuted_space_runs cover the whitespace collapse inside lookups. These transformations are part of the gateway model (every outgoing document is 'printed and lexed'), so the correspondence checks them on every run: hostile strings (whitespace runs, quotes, backslashes, control bytes, non-ASCII) as literals, variables and entity ids, through echo resolvers at the simulators; the values coming back must equal the reference executor's.",
+        "note": "Two recorded findings (Go escapes, space runs) with their guards. Variable declaration/forwarding is checked by prop.c15.vars_exact on every stream.",
+        "technique": "Coq codec theorem (induction + exhaustive byte analysis) + refutations; echo resolvers; differential correspondence",
     },
 }
 
